@@ -207,7 +207,7 @@ class C12(Check):
                               '(selection); START_WORK events of orders selected in one scan are tied at one instant and may execute '
                               'in either order (DESIGN.md section 5, C12).')
     rule = ('for maintainer capacity 0, 1, 2 and unlimited: every interleaving of <=D create_work_order calls (D=4 quick, 5 thorough) '
-            'over 3 targets x tags (needed capacity 0,1,2,5>total and one cycling 1,2 per query; durations 0, 0.5, 1, 1.5 -- one cycling per query; cost 0/3; '
+            'over 3 targets (two of which carry the same name) x tags (needed capacity 0,1,2,5>total and one cycling 1,2 per query; durations 0, 0.5, 1, 1.5 -- one cycling per query; cost 0/3; '
             'one target requesting further orders from inside its start and end hooks, including itself) with every real event '
             'and every tie-break order among simultaneous starts/finishes; non-trivial = partition with overlapping orders, a '
             'duplicate rejected and an order left queued while the clock advanced')
@@ -221,6 +221,6 @@ class C12(Check):
         D = 4 if tier == 'quick' else 5
         jobs = []
         for cap in (0, 1, 2, None):
-            params = {'depth': D, 'capacity': cap, 'targets': MAINT_TARGETS, 'requests': MAINT_REQUESTS}
+            params = {'depth': D, 'capacity': cap, 'targets': MAINT_TARGETS, 'requests': MAINT_REQUESTS, 'same_name': [[2, 0]]}
             jobs += split_first('maint', f'MAINT-C12[cap{cap},D{D}]', params, e2=10, max_states=3000000, max_seconds=3000)
         return jobs
